@@ -458,6 +458,16 @@ func (e *SpecEnv) eval(x *SExpr) Val {
 			mp := e.fx.ptrOf(v, e.st, token.NoPos, false)
 			return e.fx.load(e.st, mp)
 		}
+		if x.Op == "&" {
+			// address of a location: only locations with a first-class reference (struct objects,
+			// embedded structs and arrays) can be named
+			loc := e.evalLoc(Clause{Expr: x.Args[0], Src: e.clause, Line: ""})
+			mp := e.ex.resolve(loc.Ptr)
+			if (mp.Kind == PObj || mp.Kind == PArr || mp.Kind == PCell) && len(mp.Path) == 0 {
+				return Val{T: types.NewPointer(mp.Root), C: []*Term{mp.Ref}}
+			}
+			e.fail("cannot take the address of this location in a spec")
+		}
 		v := e.eval(x.Args[0])
 		switch x.Op {
 		case "!":
